@@ -257,9 +257,29 @@ pub fn mutants(tier: &str, seed: u64, base: &Base) -> Vec<(String, Vec<u8>, Stri
     let thorough = tier == "thorough";
     let mut rng = SplitMix64::new(seed ^ 0xC14);
     let mut out: Vec<(String, Vec<u8>, String)> = vec![];
+    // the same access structure in the older wire version (V1: no stored identifier counter — the reader recomputes it
+    // from the identifiers in use), alone and at the end of the master key and of the public key
+    let st_v1: Vec<u8> = {
+        assert_eq!(base.st[0], 1, "the base structure is expected in the current wire version");
+        let mut p = 1;
+        while base.st[p] & 0x80 != 0 {
+            p += 1;
+        }
+        let mut v = vec![0u8];
+        v.extend_from_slice(&base.st[p + 1..]);
+        v
+    };
+    let with_v1 = |obj: &Vec<u8>| -> Vec<u8> {
+        assert!(obj.ends_with(&base.st), "the access structure is expected at the end of the key");
+        let mut v = obj[..obj.len() - base.st.len()].to_vec();
+        v.extend_from_slice(&st_v1);
+        v
+    };
+    let msk_v1 = with_v1(&base.msk);
+    let mpk_v1 = with_v1(&base.mpk);
     let objs: Vec<(&str, &Vec<u8>)> = vec![
         ("enc", &base.enc_c), ("enc", &base.enc_h), ("hdr", &base.hdr), ("usk", &base.usk), ("usk", &base.usk2),
-        ("mpk", &base.mpk), ("msk", &base.msk), ("struct", &base.st),
+        ("mpk", &base.mpk), ("msk", &base.msk), ("struct", &base.st), ("struct", &st_v1), ("msk", &msk_v1), ("mpk", &mpk_v1),
     ];
     let boundary: Vec<Vec<u8>> = {
         let mut v = vec![];
@@ -391,6 +411,29 @@ pub fn mutants(tier: &str, seed: u64, base: &Base) -> Vec<(String, Vec<u8>, Stri
 }
 
 /// worker: reads the base objects then one mutant per line (`<ty> <hex>`); prints one result line per mutant
+/// what an authority does with a structure it has loaded: one more attribute in each dimension, a rename, a disable,
+/// a deletion, one more dimension (errors are fine; panics are not)
+fn edit_structure(s: &mut AccessStructure) {
+    use cosmian_cover_crypt::{EncryptionHint, QualifiedAttribute};
+    let dims: Vec<String> = s.dimensions().map(|d| d.to_string()).take(4).collect();
+    for d in &dims {
+        let _ = s.add_attribute(QualifiedAttribute::new(d, "verif-new"), EncryptionHint::Classic, None);
+        let _ = s.add_attribute(QualifiedAttribute::new(d, "verif-new-h"), EncryptionHint::Hybridized, None);
+    }
+    let attrs: Vec<QualifiedAttribute> = s.attributes().take(3).collect();
+    if let Some(a) = attrs.first() {
+        let _ = s.rename_attribute(a, "verif-renamed".to_string());
+    }
+    if let Some(a) = attrs.get(1) {
+        let _ = s.disable_attribute(a);
+    }
+    if let Some(a) = attrs.get(2) {
+        let _ = s.del_attribute(a);
+    }
+    let _ = s.add_anarchy("verif-dim".to_string());
+    let _ = s.add_attribute(QualifiedAttribute::new("verif-dim", "x"), EncryptionHint::Classic, None);
+}
+
 pub fn worker() {
     unsafe {
         let lim = libc::rlimit { rlim_cur: 2 << 30, rlim_max: 2 << 30 };
@@ -470,14 +513,21 @@ pub fn worker() {
                         let _ = cc.update_msk(&mut m);
                         let _ = cc.rekey(&mut m, &star);
                         let _ = m.serialize();
+                        // the authority goes on editing the structure it loaded
+                        edit_structure(&mut m.access_structure);
+                        let _ = cc.update_msk(&mut m);
+                        let _ = m.serialize();
                         "acc"
                     }
                     Err(_) => "rej",
                 },
                 _ => match AccessStructure::deserialize(&bytes) {
-                    Ok(s) => {
+                    Ok(mut s) => {
                         let _ = s.ap_to_usk_rights(&star);
                         let _ = s.attributes().count();
+                        let _ = s.serialize();
+                        edit_structure(&mut s);
+                        let _ = s.ap_to_usk_rights(&star);
                         let _ = s.serialize();
                         "acc"
                     }
@@ -588,7 +638,31 @@ pub fn run_workers(base: &Base, muts: &[(String, Vec<u8>, String)], timeout: Dur
 pub fn run(tier: &str, seed: u64, driver: &str, out: &str) {
     let t0 = Instant::now();
     let base = make_base();
-    let muts = mutants(tier, seed, &base);
+    let mut muts = mutants(tier, seed, &base);
+    // corpus first: byte strings of the defects found so far (`corpus/findings/*.bytes`, lines `<type> <hex>`)
+    let corpus_dir = std::env::var("VERIF_CORPUS").unwrap_or("/verif/corpus/findings".into());
+    if let Ok(rd) = std::fs::read_dir(&corpus_dir) {
+        let mut files: Vec<_> = rd.filter_map(|e| e.ok()).map(|e| e.path()).filter(|p| p.extension().map(|x| x == "bytes").unwrap_or(false)).collect();
+        files.sort();
+        let mut pre = vec![];
+        for f in files {
+            let Ok(txt) = std::fs::read_to_string(&f) else { continue };
+            if !txt.lines().next().map(|l| l.starts_with("# props:") && l.contains("C14")).unwrap_or(false) {
+                continue;
+            }
+            let name = f.file_stem().map(|x| x.to_string_lossy().to_string()).unwrap_or_default();
+            for l in txt.lines().filter(|l| !l.starts_with('#') && !l.trim().is_empty()) {
+                let mut it = l.split(' ');
+                if let (Some(ty), Some(h)) = (it.next(), it.next()) {
+                    if let Some(b) = unhex(h) {
+                        pre.push((ty.to_string(), b, format!("corpus:{name}")));
+                    }
+                }
+            }
+        }
+        pre.append(&mut muts);
+        muts = pre;
+    }
     // split across workers
     let workers: usize = std::env::var("VERIF_WORKERS").ok().and_then(|s| s.parse().ok()).unwrap_or(16);
     let chunk = (muts.len() + workers - 1) / workers;
@@ -651,7 +725,7 @@ pub fn run(tier: &str, seed: u64, driver: &str, out: &str) {
         "soft_kind_mismatch": 0, "matrix_cells": 0, "matrix_open": 0,
         "samples": [{"type": muts[1].0, "mutation": muts[1].2, "bytes": hex(&muts[1].1)}, {"type": muts[muts.len() / 2].0, "mutation": muts[muts.len() / 2].2, "len": muts[muts.len() / 2].1.len()}],
         "mismatches": mism,
-        "extra": {"rule": "mutants of valid serialisations of 8 objects (classic and hybridised encapsulation, header, two user keys, public key, master key, access structure): every truncation (strided in the middle of long objects in quick), single-byte corruption at every such position x {xor 1, xor 0x80, 0, 0xff}, every count / length / flag field replaced by 17 boundary, non-canonical and overflowing LEB128 values up to 2^64-1, appended garbage, random strings; each mutant is deserialised and, when accepted, used (decaps, recaps, header decryption, refresh, encaps, mpk, update, rekey, accessors, re-serialisation) in a worker process under RLIMIT_AS, a 10 s watchdog and a counting allocator; oracle: no panic / crash / timeout, largest allocation request <= 64 x input + 1 MiB, peak <= 256 x input + 4 MiB; accepted mutants must also be accepted by the Lean wire model; distinct = distinct (type, bytes)",
+        "extra": {"rule": "mutants of valid serialisations of 11 objects (classic and hybridised encapsulation, header, two user keys, public key, master key, access structure; the last three also in the older wire version V1): every truncation (strided in the middle of long objects in quick), single-byte corruption at every such position x {xor 1, xor 0x80, 0, 0xff}, every count / length / flag field replaced by 17 boundary, non-canonical and overflowing LEB128 values up to 2^64-1, appended garbage, random strings; each mutant is deserialised and, when accepted, used (decaps, recaps, header decryption, refresh, encaps, mpk, update, rekey, accessors, re-serialisation; accepted structures and master keys are then edited — attributes added, renamed, disabled, deleted, a dimension added — and updated) in a worker process under RLIMIT_AS, a 10 s watchdog and a counting allocator; oracle: no panic / crash / timeout, largest allocation request <= 64 x input + 1 MiB, peak <= 256 x input + 4 MiB; accepted mutants must also be accepted by the Lean wire model; distinct = distinct (type, bytes)",
             "exhaustive": false, "per_line": true, "oracle_failures": fails, "oracle_checked": results.len(), "campaign": "C14",
             "distribution": {"accepted_mutants_checked_against_model": mlines.len(), "worst_maxreq_per_input_byte": worst_ratio},
             "wall_s": t0.elapsed().as_secs_f64()},
